@@ -574,3 +574,37 @@ Proof. exact ex_crop_contains_w. Qed.
    apply_geometric_augmentation was repaired): its content map is warp_content false, so
    c04_aug_square_error / c04_aug_square_registered are the strongest true statements for it
    and c04_aug_nonsquare_refuted is its refutation (finding F04p, same witness matrix). *)
+
+(* Several videos in one label set (round 3).  A sample of CenteredInstanceDataset is cut from
+   the image of ITS OWN labelled frame: `cache_lf` (the last decoded frame, re-used for the other
+   instances of the same labelled frame) is filed under the labelled-frame POSITION, and positions
+   are distinct even when several videos have the same frame index labelled.  Holds for every
+   label set, every list of (position, instance) entries in any order and every consistent cache
+   state; `c04_frame_cache_distinct_keys` is the general form (any key that separates positions).
+   Filing the frame under `lf.frame_idx` instead is refuted by two videos with frame 0 labelled. *)
+Theorem c04_frame_cache_own_image : forall idx,
+  cache_images (fun p => p) None idx = map fst idx.
+Proof. exact cache_images_position. Qed.
+Print Assumptions c04_frame_cache_own_image.
+
+Theorem c04_frame_cache_distinct_keys : forall key, (forall p q, key p = key q -> p = q) ->
+  forall idx st, cache_ok key st -> cache_images key st idx = map fst idx.
+Proof. exact cache_images_own. Qed.
+Print Assumptions c04_frame_cache_distinct_keys.
+
+(* the index space of CenteredInstanceDataset: exactly the (position, instance) pairs of the labels *)
+Theorem c04_instance_index_spec : forall labels p j,
+  In (p, j) (instance_index labels) <->
+  exists f, nth_error labels p = Some f /\ (j < lf_ninst f)%nat.
+Proof. exact instance_index_spec. Qed.
+Print Assumptions c04_instance_index_spec.
+
+Theorem c04_frame_cache_by_frame_idx_refuted : exists labels,
+  cache_images (key_frame_idx labels) None (instance_index labels) <> map fst (instance_index labels).
+Proof. exact frame_cache_by_frame_idx_refuted. Qed.
+Print Assumptions c04_frame_cache_by_frame_idx_refuted.
+
+Example ex_c04_frame_cache :
+  run (CFrameCache true [(0, 0, 2); (1, 0, 1); (0, 1, 1)]%nat)
+  = Some ([0; 0; 0; 0;  0; 1; 0; 0;  1; 0; 1; 0;  2; 0; 0; 1]%Z, [], []).
+Proof. exact ex_frame_cache_w. Qed.
